@@ -5,6 +5,8 @@
 #include "fp.hpp"
 #include "optable.hpp"
 #include <dlfcn.h>
+#include <atomic>
+#include <thread>
 #include <xmmintrin.h>
 #include <map>
 #include <string>
@@ -28,6 +30,14 @@ struct OpEntry {
 };
 static std::vector<Lib> g_libs;
 static std::vector<OpEntry> g_ops;
+static bool g_threads_mode = false;  // C20: two threads run the same operation concurrently (ThreadSanitizer build)
+static std::atomic<int> g_tsan_reports(0);
+#if defined(__has_feature)
+#if __has_feature(thread_sanitizer)
+#define OPS_TSAN 1
+extern "C" void __tsan_on_report(void*) { g_tsan_reports++; }  // the runtime calls this for every report it produces
+#endif
+#endif
 static bool g_bits_mode = false;   // C15: every output must be bit-identical (NaN payloads aside)
 static const char* g_prop = "C03";
 
@@ -218,6 +228,41 @@ static void prop_op(pbt::Ctx& c, int idx) {
 		}
 		if (extreme) { c.cls("lowp-extreme-magnitude(not-compared)"); return; }
 	}
+	if (g_threads_mode) {
+		// re-entrancy: a second thread evaluates the operation on other inputs while this thread evaluates it on `in`, without any
+		// synchronisation between the two. The result must be the single-threaded one, and (ThreadSanitizer build) no data race may be
+		// reported: a function-local static or any other shared scratch storage inside GLM is a race even when the values happen to agree.
+		Slot in2[160]; memset(in2, 0, sizeof in2);
+		gen_inputs(c, op, in2);
+		for (size_t li = 0; li <= op.others.size(); ++li) {
+			const OpInfo* oi = li == 0 ? op.base : op.others[li - 1].second;
+			const std::string& ln = li == 0 ? g_libs[0].name : g_libs[op.others[li - 1].first].name;
+			Slot s1[64], s2[64], o1[64], o2[64];
+			memset(s1, 0, sizeof s1); memset(s2, 0, sizeof s2);
+			oi->fn(in, s1); oi->fn(in2, s2);  // single-threaded results
+			const int before = g_tsan_reports.load();
+			bool differs = false;
+			{
+				std::thread t([&] { for (int k = 0; k < 8; ++k) { memset(o2, 0, sizeof o2); oi->fn(in2, o2); } });
+				for (int k = 0; k < 8; ++k) { memset(o1, 0, sizeof o1); oi->fn(in, o1); if (memcmp(o1, s1, sizeof o1) != 0) differs = true; }
+				t.join();
+				if (memcmp(o2, s2, sizeof o2) != 0) differs = true;
+			}
+			if (g_tsan_reports.load() != before) c.failk("tsan/" + ln + "/data-race", "%s in %s: ThreadSanitizer reported a data race while two threads evaluated the operation concurrently on inputs %s and %s", op.name.c_str(), ln.c_str(), fmt_slots(op.args, in).c_str(), fmt_slots(op.args, in2).c_str());
+			if (differs) {
+				bool nanonly = true;  // NaN payloads may differ between evaluations of the same input
+				int pos = 0;
+				for (const Arg& a : op.outs) for (int i = 0; i < slots_of(a); ++i, ++pos) {
+					if (o1[pos].ul == s1[pos].ul && o2[pos].ul == s2[pos].ul) continue;
+					bool n1 = a.type == 'f' ? (fp::is_nan(o1[pos].f) && fp::is_nan(s1[pos].f)) : a.type == 'd' ? (fp::is_nan(o1[pos].d) && fp::is_nan(s1[pos].d)) : false;
+					bool n2 = a.type == 'f' ? (fp::is_nan(o2[pos].f) && fp::is_nan(s2[pos].f)) : a.type == 'd' ? (fp::is_nan(o2[pos].d) && fp::is_nan(s2[pos].d)) : false;
+					if (!((o1[pos].ul == s1[pos].ul || n1) && (o2[pos].ul == s2[pos].ul || n2))) nanonly = false;
+				}
+				if (!nanonly) c.failk("tsan/" + ln + "/concurrent-result-differs", "%s in %s: evaluated concurrently with another call, f(%s) = %s, single-threaded %s", op.name.c_str(), ln.c_str(), fmt_slots(op.args, in).c_str(), fmt_slots(op.outs, o1).c_str(), fmt_slots(op.outs, s1).c_str());
+			}
+		}
+		return;
+	}
 	// every operation is a pure function of its arguments: one case in eight evaluates f(in), f(other inputs), f(in) in every library and
 	// requires the first and third results to be bit-identical (hidden state carried from one call to the next; the two-call history is
 	// part of the case, so it replays from the choice list)
@@ -298,7 +343,7 @@ int main(int argc, char** argv) {
 	fill_from<7168>(std::make_integer_sequence<int, 1024>());
 	const char* libs = getenv("OPS_LIBS");
 	if (!libs) { fprintf(stderr, "OPS_LIBS not set\n"); return 2; }
-	if (const char* m = getenv("OPS_MODE")) g_bits_mode = !strcmp(m, "bits");
+	if (const char* m = getenv("OPS_MODE")) { g_bits_mode = !strcmp(m, "bits"); g_threads_mode = !strcmp(m, "threads"); }
 	if (const char* p = getenv("OPS_PROPERTY")) g_prop = p;
 	const char* filter = getenv("OPS_FILTER");  // optional substring of operation names
 	std::string s = libs;
@@ -346,6 +391,6 @@ int main(int argc, char** argv) {
 		pbt::Target T; T.name = g_ops[i].name; T.fn = g_tramps[i]; T.quick_cases = q; T.thorough_cases = t; T.rule = rule;
 		pbt::targets().push_back(T);
 	}
-	fprintf(stderr, "[driver] %zu operations x %zu libraries, mode=%s\n", g_ops.size(), g_libs.size(), g_bits_mode ? "bits" : "class");
+	fprintf(stderr, "[driver] %zu operations x %zu libraries, mode=%s\n", g_ops.size(), g_libs.size(), g_threads_mode ? "threads" : g_bits_mode ? "bits" : "class");
 	return pbt::pbt_main(argc, argv, g_prop);
 }
